@@ -37,10 +37,11 @@ ASSUMPTIONS = [
 ]
 MANDATORY = ["op:set-new", "op:set-replace", "op:reject", "op:del", "op:rename_ds", "op:rename_var", "op:dims", "op:set_axis", "op:axes_set",
              "op:axes_set_int", "op:axes_set_renamed", "op:label", "op:append", "op:rename_keys", "op:rename_axes", "op:copy", "op:derive",
-             "start:constructed", "reject-after-accept", "replace-changes-dims", "axis-change-with-2-users", "reject:new-dim-first", "dims:permute-existing"]
+             "start:constructed", "reject-after-accept", "replace-changes-dims", "axis-change-with-2-users", "reject:new-dim-first", "dims:permute-existing", "reject:truncated-labels"]
 
 NAMES = ["x", "y", "z", "w"]
 FRESH = ["p", "q", "r", "s", "u", "v", "g", "h"]
+SPARE = ["n%d" % i for i in range(40)]     # never exhausted within a program (at most 30 steps)
 VARS = ["a", "b", "c", "d"]
 LABPOOL = {"i": [3, 1, 2, 7, 5], "f": [0.5, 2.5, 1.5, 4.0], "s": ["k", "m", "l", "n"]}
 OPS = ["set", "set", "set", "set", "reject", "reject", "del", "rename_ds", "rename_var", "dims", "set_axis", "axes_set", "axes_set_int",
@@ -173,7 +174,11 @@ def run_case(case):
                     continue
                 j = ex[a % len(ex)]
                 old = labs[j]
-                if len(old) > 1 and c % 2:
+                trunc = [int(x) for x in old] if all(isinstance(x, float) for x in old) else None
+                if trunc is not None and c % 3 == 2 and trunc != list(old) and len(set(trunc)) == len(trunc):
+                    labs[j] = trunc                                         # int labels that are the truncated float labels
+                    cl.add("reject:truncated-labels")
+                elif len(old) > 1 and c % 2:
                     labs[j] = old[::-1]                                     # same labels, other order
                 else:
                     labs[j] = [("zz%d" % i if isinstance(x, str) else 99 + i) for i, x in enumerate(old)]   # other labels
@@ -230,7 +235,7 @@ def run_case(case):
                 old = m.vars[k][0][b % len(m.vars[k][0])]
             else:
                 old = list(m.axes)[a % len(m.axes)]
-            fresh = [d for d in NAMES + FRESH if d not in m.axes]
+            fresh = [d for d in NAMES + FRESH + SPARE if d not in m.axes]
             new = fresh[c % len(fresh)]
             if len(m.users(old)) >= 2:
                 cl.add("axis-change-with-2-users")
@@ -258,7 +263,7 @@ def run_case(case):
         elif op == "dims":
             if not m.axes:
                 continue
-            fresh = [d for d in NAMES + FRESH if d not in m.axes]
+            fresh = [d for d in NAMES + FRESH + SPARE if d not in m.axes]
             news = [fresh[(a + j) % len(fresh)] for j in range(len(m.axes))]
             cur = list(m.axes)
             if len(cur) >= 2 and b % 3 == 1:
@@ -315,7 +320,7 @@ def run_case(case):
                     lib(lambda: ds.set_axis(lambda x: x + 100, axis=axis_arg), what=what + " set_axis(callable +100, axis=%r)" % (axis_arg,), sig=sig)
                     m.axes[d] = [x + 100 for x in m.axes[d]]
                 elif mode == 3:
-                    fresh = [x for x in NAMES + FRESH if x not in m.axes]
+                    fresh = [x for x in NAMES + FRESH + SPARE if x not in m.axes]
                     nn = fresh[c % len(fresh)]
                     lib(lambda: ds.set_axis(arrl, axis=axis_arg, name=nn), what=what + " set_axis(%s, axis=%r, name=%s)" % (new, axis_arg, nn), sig=sig)
                     m.axes[d] = list(new)
@@ -345,7 +350,7 @@ def run_case(case):
                 lib(f, what=what + " ds.axes[%d] = Axis(%s, %r)" % (di, new, d), sig=sig)
                 m.axes[d] = list(new)
             else:
-                fresh = [x for x in NAMES + FRESH if x not in m.axes]
+                fresh = [x for x in NAMES + FRESH + SPARE if x not in m.axes]
                 nn = fresh[c % len(fresh)]
 
                 def f():
@@ -380,7 +385,7 @@ def run_case(case):
             m.axes[d] = [new if j == i else x for j, x in enumerate(cur)]
             cl.add("op:label")
         elif op == "append":
-            fresh = [d for d in NAMES + FRESH if d not in m.axes]
+            fresh = [d for d in NAMES + FRESH + SPARE if d not in m.axes]
             d = fresh[a % len(fresh)]
             l = LABPOOL["ifs"[b % 3]][:1 + c % 3]
             lib(lambda: ds.axes.append(da.Axis(core.label_array(l), d)), what=what + " ds.axes.append(Axis(%s, %r))" % (l, d), sig=sig)
